@@ -71,11 +71,14 @@ def RS.setAlias (s : RS) (path al : Str) : RS :=
   else { s with imps := setAliasIn path al s.imps }
 
 /-- one iteration of the `for _, p := range []*Package{a, b}` loop of
-    `resolveImportConflict`: the wanted name is free (or taken by `p` itself) ⇒ assign it;
-    taken by another package ⇒ resolve that conflict one level deeper (`deeper`) -/
-def resolveStep (o : Ord) (deeper : RS → Str → Str → Option RS) (lvl : Nat) (s : RS) (p : Str) : Option RS :=
+    `resolveImportConflict`: the wanted name is free (or taken by `p` itself, or – for `a` –
+    only by `b`, which the same loop renames next: `skip`) ⇒ assign it; taken by another
+    package ⇒ resolve that conflict one level deeper (`deeper`) -/
+def resolveStep (o : Ord) (deeper : RS → Str → Str → Option RS) (lvl : Nat) (skip : Option Str)
+    (s : RS) (p : Str) : Option RS :=
   match searchIn (o.pk s.imps) (uniqueName p lvl) with
-  | some c => if c.path = p then some (s.setAlias p (uniqueName p lvl)) else deeper s p c.path
+  | some c =>
+    if c.path = p ∨ skip = some c.path then some (s.setAlias p (uniqueName p lvl)) else deeper s p c.path
   | none => some (s.setAlias p (uniqueName p lvl))
 
 /-- registry.go `resolveImportConflict(a, b, lvl)`; packages are named by path.
@@ -85,8 +88,8 @@ def resolve (o : Ord) : Nat → RS → Str → Str → Nat → Option RS
   | fuel + 1, s, a, b, lvl =>
     if uniqueName a lvl = uniqueName b lvl then resolve o fuel s a b (lvl + 1)
     else
-      (resolveStep o (fun s p q => resolve o fuel s p q (lvl + 1)) lvl s a).bind fun s1 =>
-        resolveStep o (fun s p q => resolve o fuel s p q (lvl + 1)) lvl s1 b
+      (resolveStep o (fun s p q => resolve o fuel s p q (lvl + 1)) lvl (some b) s a).bind fun s1 =>
+        resolveStep o (fun s p q => resolve o fuel s p q (lvl + 1)) lvl none s1 b
 
 /-- registry.go `AddImport`.  Result: new registry and the stripped path when the returned
     `*Package` is non-nil. -/
